@@ -415,7 +415,9 @@ def bump(index, rep):
 def describe(rep):
     rep.explanation = (
         "Static analysis of the hand-off helpers in parameters.py. C18.CAP: the code before the month loop is abstractly "
-        "evaluated, forking on its single guard; both branches give KCALS_DAILY x min(T, pf1)/100. C18.GREEDY: the closure is "
+        "evaluated, forking on every data-dependent test; each feasible leaf must give KCALS_DAILY x T/100 where its conditions "
+        "imply pf1 >= T and KCALS_DAILY x pf1/100 where they imply pf1 <= T (linear-relaxation feasibility over the guards), i.e. "
+        "KCALS_DAILY x min(T, pf1)/100 whatever the code shape (if/else, min(), conditional expression). C18.GREEDY: the closure is "
         "evaluated symbolically: it returns min(food, remaining) and lowers remaining by exactly that; remaining is reset to the "
         "ceiling at the top of every month and nowhere else. With nine calls per month this gives, per month, "
         "sum(consumed) = min(sum(foods), ceiling) and consumed_i <= food_i (greedy-fill lemma). C18.ORDER: the nine calls, by the "
